@@ -26,7 +26,7 @@ RULE = ("call alphabet (about 300 calls, built deterministically from the config
         "every flag / configuration value: Sid(str / sid= / fields= / query= / path= with each config, default and a bogus one), sid.path(config) "
         "positional / keyword / default, unfold_search with its four flag values positional / keyword / mixed / default, match, find on a fixed "
         "list, both trees and FindInAll (fully and partially consumed generators kept alive), exists, failing calls, entity creation. "
-        "Each shard owns one PYTHONHASHSEED (8 seeds; shards 8-15 run with cache capacity 3) and checks: all ordered pairs of a 40-call (quick) or 150+-call (thorough) "
+        "Each shard owns one PYTHONHASHSEED (8 seeds; shards 8-15 run with cache capacity 3) and checks: all ordered pairs inside a family of related calls (or-search / its alternatives / alias / members / '**' / explicit levels, through every entry point), all ordered pairs of a 22-call (quick) or 150+-call (thorough) "
         "sub-alphabet, Hypothesis-generated sequences of up to 50 calls (with creates), a flood of 5000 distinct Sids followed by probes, truth "
         "tables equal across hash seeds, call-style equivalence of truths. Oracle: every result equals the result of the same call in a freshly "
         "forked post-import process (on the same data). non-trivial = a later call shares its entry point with an earlier one but differs in an "
@@ -225,6 +225,54 @@ def alphabet(model, seed: int):
     return calls
 
 
+def families(model, seed: int):
+    """
+    Families of RELATED calls: searches that share sub-results inside the library (an or-search and each of its
+    alternatives alone, an alias and its members, a '**' search and its explicit expansions, a Sid and its prefixes),
+    each asked through every entry point. All ordered pairs inside a family are checked.
+    """
+    m = model.sid
+    rnd = random.Random(seed * 4391 + 7)
+    fixed = [(t, f, m.render(t, f)) for t, f in fixed_universe(model)]
+    picked = rnd.sample(fixed, min(8, len(fixed)))
+    fams = []
+    aliases = sorted(m.extension_alias)
+    for t, f, s in picked:
+        segs = s.split("/")
+        n = len(segs)
+        i = rnd.randrange(n)
+        others = sorted({x[2].split("/")[i] for x in fixed if len(x[2].split("/")) > i and x[2].split("/")[i] != segs[i]}) or ["zz"]
+        other = rnd.choice(others + ["zz"])
+        with_other = "/".join(segs[:i] + [other] + segs[i + 1:])
+        or1 = "/".join(segs[:i] + [segs[i] + "," + other] + segs[i + 1:])
+        or2 = "/".join(segs[:i] + [other + "," + segs[i]] + segs[i + 1:])
+        star = "/".join(segs[:i] + ["*"] + segs[i + 1:])
+        k = rnd.randint(1, n - 1)
+        dstar = "/".join(segs[:k] + ["**"])
+        explicit = "/".join(segs[:k] + ["*"] * (n - k))
+        strings = [s, with_other, or1, or2, star, dstar, explicit, "/".join(segs[:max(1, n - 1)])]
+        al = [a for a in aliases if m.accepts(t, segs[:-1] + [a])]
+        if al:
+            a = rnd.choice(al)
+            strings.append("/".join(segs[:-1] + [a]))
+            for mem in m.extension_alias[a][:2]:
+                strings.append("/".join(segs[:-1] + [mem]))
+            strings.append("/".join(segs[:-1] + ["*"]) + "?" + m.keys(t)[-1] + "=" + a)
+        strings = list(dict.fromkeys(strings))
+        calls = []
+        for x in strings:
+            calls.append({"k": "unfold", "s": x, "u": False, "e": False, "style": "pos"})
+            calls.append({"k": "find", "finder": "list", "s": x, "consume": None})
+            calls.append({"k": "match", "uri": t + ":" + s, "s": x})
+        for x in strings[:4]:
+            calls.append({"k": "sid", "s": x})
+            calls.append({"k": "unfold", "s": x, "u": False, "e": True, "style": "kw"})
+            calls.append({"k": "find", "finder": "all", "s": x, "consume": None})
+        calls.append({"k": "find", "finder": "paths:" + model.default_config, "s": or1, "consume": 1})
+        fams.append(calls)
+    return fams
+
+
 def creates(model):
     return [{"k": "create", "entity": e, "config": model.default_config} for e in new_entities(model)]
 
@@ -322,9 +370,20 @@ def run(ctx) -> Stats:
     enumerate_cases(ctx, "styles", ({"hashseed": h, "calls": g} for g in groups.values() if len(g) > 1), evaluate_styles, stats)
     enumerate_cases(ctx, "history", ({"hashseed": h, "max_size": ms, "calls": [c]} for c in alpha), evaluate, stats)
 
+    # (a0) all ordered pairs inside one family of related calls (families are spread over the shards)
+    fams = families(model, ctx.seed)
+    todo = [fams[(ctx.shard + j * ctx.nshards) % len(fams)] for j in range(1 if ctx.quick else len(fams))]
+    if scale < 0.5:
+        todo = [fam[:12] for fam in todo]
+    elif ctx.quick:
+        todo = [fam[:33] for fam in todo]
+    for fam in todo:
+        enumerate_cases(ctx, "history", ({"hashseed": h, "max_size": ms, "calls": [a, b]} for a in fam for b in fam), evaluate, stats)
+    stats.labels["family-pairs"] = sum(len(fam) ** 2 for fam in todo)
+
     # (a) ordered pairs over a sub-alphabet (different per shard)
     rnd = random.Random(ctx.seed * 104729 + ctx.shard)
-    nsub = max(4, int((40 if ctx.quick else 300) * min(1.0, scale) ** 0.5))
+    nsub = max(4, int((22 if ctx.quick else 300) * min(1.0, scale) ** 0.5))
     if not ctx.quick:
         nsub = min(len(alpha), max(nsub, 150))
     sub = rnd.sample(alpha, min(nsub, len(alpha))) + cr[:1]
@@ -336,11 +395,12 @@ def run(ctx) -> Stats:
     enumerate_cases(ctx, "history", [{"hashseed": h, "max_size": ms, "calls": [{"k": "flood", "n": 5000, "prefix": model.sid.projects[0] + "/zz" if model.sid.projects else "zz"}] + probes}],
                     evaluate, stats)
 
-    # (b) random sequences with creates
+    # (b) random sequences with creates (the alphabet is extended by this shard's family so that related calls meet)
+    alpha = alpha + [c for fam in todo[:1] for c in fam]
     idx = st.integers(0, len(alpha) - 1)
     step = st.one_of(idx, idx, idx, idx, idx, idx, idx, st.integers(-len(cr), -1))
     seqs = st.lists(step, min_size=2, max_size=50).map(
         lambda ix: {"hashseed": h, "max_size": ms, "calls": [alpha[i] if i >= 0 else cr[-i - 1] for i in ix]})
-    n = int((40 if ctx.quick else 1500) * scale)
+    n = int((30 if ctx.quick else 1500) * scale)
     drive(ctx, "history", seqs, evaluate, max_examples=max(5, n), stats=stats)
     return stats
